@@ -19,6 +19,19 @@ CHECKS = {
    note="Trusted: TLC, renderer, bash 5.2.15 as reference (7 cases where bash deviates from its own documented rule are excluded by the audit), prelude. "
         "The status of a fatal expansion error is only required to be non-zero (1 and 127 identified).",
    ref="DESIGN.md section 6 C03"),
+ "C16": dict(level=MC, thorough=True, tech="TLA+ Interp.tla with EXIT/ERR handler frames and termination sequence; TLC-generated ways out x trap prefixes replayed through -c, script file and stdin front-ends",
+   text="Interp.tla models trap registration, handler invocation frames (saved $?, re-entrancy), the termination sequence and every way out of the shell; "
+        "TLC checks ExitOnce/DoneClean in every state and predicts, for each way out at every position of every construct chain x trap set/replaced/removed/"
+        "ERR+EXIT x handler kind, the marker trace, the $? seen by the handlers and the exit status; each prediction is replayed through the three front-ends of the real shell.",
+   note="Trusted: TLC, renderer, bash 5.2.15 reference, prelude. Three recorded findings are reproduced exactly by as-built disjuncts of the spec (ExitInExitTrapIgnored, "
+        "ErrTrapOnAnyFlow, ErrTrapRearmedOnExit); errtrace (set -E) shapes are not generated while ErrTrapOnAnyFlow is recorded.",
+   ref="DESIGN.md section 6 C16"),
+ "C20": dict(level=MC, thorough=True, tech="TLA+ History.tla exhaustively model-checked (all histories <= 7 ops, 2 sessions); TLC-emitted behaviours replayed into the real History/Shell code with full abstract-state comparison after every action",
+   text="The history file and the sessions' item lists are modelled explicitly (dirty flags, timestamp lines, import rules); TLC proves NoDup, SavedPresent, InOrder, "
+        "TsAttached, ReloadEq and SaveIdemAct for every history of up to 7 operations over two sessions, and emits every history of 5 (one session) / 4 (two sessions) operations "
+        "plus simulated 12-operation histories; bin histdrv performs each on the real code and file bytes + item lists are compared after every step.",
+   note="Trusted: TLC, the harness' projection (file lines with `#<digits>` normalised, items as (text, dirty, has timestamp)). Single-line commands; file private to the case.",
+   ref="DESIGN.md section 6 C20, Appendix D"),
 }
 PENDING_REASON = "check not built yet in this round (planned, see DESIGN.md section 12); no claim is made"
 
